@@ -33,6 +33,7 @@ class Prop:
 
 
 def check(prop, tier):
+    chk = None
     t0 = time.time()
     broken = []          # (kind, message)
     notes = {}
@@ -62,6 +63,12 @@ def check(prop, tier):
                 bad = [a for a in axs if a not in prop.allowed_axioms]
                 if bad:
                     broken.append(("assumptions", f"{thm} depends on non-allow-listed axioms {bad}"))
+        if not broken and tier == "thorough":
+            chk, err = C.coqchk(prop.prop_file)
+            if err:
+                broken.append(("coqchk", err))
+            elif any(chk.get(k) not in ("<none>",) for k in ("axioms", "type_in_type", "unsafe_fixpoints", "assumed_positivity")) and not prop.allowed_axioms:
+                broken.append(("coqchk", f"coqchk reports {chk}"))
         model_ok = True
         if prop.extract:
             # the model files contain no proofs: they may still build when a proof broke
@@ -143,6 +150,8 @@ def check(prop, tier):
         "generated_files": [g[1] for g in prop.gens],
         "exhaustive": False,
     }
+    if tier == "thorough":
+        cov["coqchk"] = chk if chk else "not run (broken earlier)"
     cov.update(corr.get("extra", {}))
     C.write_evidence(prop.id, tier, cov, wall, nviol, prop.assumptions)
     print(f"{prop.id} {tier}: obligations={len(obligations)} discharged={discharged} correspondence={corr.get('evaluations', 0)} "
